@@ -9,6 +9,7 @@ import (
 	"text/template"
 
 	"github.com/Masterminds/sprig/v3"
+	"github.com/mitchellh/copystructure"
 	"sigs.k8s.io/yaml"
 )
 
@@ -232,6 +233,31 @@ func SprigFuncs(t *template.Template) template.FuncMap {
 	allowedFuncs["keys"] = sortedKeys
 	allowedFuncs["values"] = valuesSortedByKey
 
+	// sprig's set and merge functions store the maps they are given by reference. A map stored (indirectly) inside
+	// itself is a cyclic value, and printing or copying a cyclic value recurses until the stack is exhausted,
+	// which cannot be recovered from and kills the process. Storing deep copies keeps all template values trees.
+	allowedFuncs["set"] = setCopy
+	for _, name := range []string{"merge", "mergeOverwrite"} {
+		merge := allowedFuncs[name].(func(map[string]any, ...map[string]any) any)
+		allowedFuncs[name] = func(dst map[string]any, srcs ...map[string]any) (any, error) {
+			copies, err := copyMaps(srcs)
+			if err != nil {
+				return nil, err
+			}
+			return merge(dst, copies...), nil
+		}
+	}
+	for _, name := range []string{"mustMerge", "mustMergeOverwrite"} {
+		merge := allowedFuncs[name].(func(map[string]any, ...map[string]any) (any, error))
+		allowedFuncs[name] = func(dst map[string]any, srcs ...map[string]any) (any, error) {
+			copies, err := copyMaps(srcs)
+			if err != nil {
+				return nil, err
+			}
+			return merge(dst, copies...)
+		}
+	}
+
 	includedNames := map[string]int{}
 	// Include function executes a template with given data and returns the result as string.
 	// Use this helper function if you need to modify the resulting output via e.g. | indent.
@@ -255,6 +281,28 @@ func SprigFuncs(t *template.Template) template.FuncMap {
 	allowedFuncs["toYAML"] = toYAML
 	allowedFuncs["fromYAML"] = fromYAML
 	return allowedFuncs
+}
+
+// setCopy is sprig's set function storing a deep copy of the value.
+func setCopy(dict map[string]any, key string, value any) (map[string]any, error) {
+	valueCopy, err := copystructure.Copy(value)
+	if err != nil {
+		return nil, fmt.Errorf("copying value for key %s: %w", key, err)
+	}
+	dict[key] = valueCopy
+	return dict, nil
+}
+
+func copyMaps(maps []map[string]any) ([]map[string]any, error) {
+	copies := make([]map[string]any, len(maps))
+	for i, m := range maps {
+		mapCopy, err := copystructure.Copy(m)
+		if err != nil {
+			return nil, fmt.Errorf("copying map: %w", err)
+		}
+		copies[i] = mapCopy.(map[string]any)
+	}
+	return copies, nil
 }
 
 // sortedKeys returns the keys of every given dict in alphabetical order, dict after dict.
